@@ -168,6 +168,30 @@ def cutBatches (keys : List String) : List Nat → List (Rec Nat) → Except Err
     | .error e, _ => .error e
     | _, .error e => .error e
 
+/-- parameters of a single-filter request -> the filter as an `FOp` (phase 6; `pipeline` / `Pipe` run these) -/
+def parseOp (req : Json) : Except String FOp := do
+  let op ← str (← field req "op")
+  match op with
+  | "pshuffle" => pure (.pshuffle (← parseSeed (← field req "seed")))
+  | "eshuffle" => pure (.eshuffle (← parseSeed (← field req "seed")) (← parseSeed (← field req "lseed")))
+  | "take" => pure (.take (← opt nat (fieldD req "count" Json.null)) (← bool (← field req "strict")))
+  | "slice" => pure (.slice (← opt nat (fieldD req "start" Json.null)) (← opt nat (fieldD req "stop" Json.null)) (← nat (← field req "step")))
+  | "reservoir" =>
+    pure (.reservoir (← opt nat (fieldD req "count" Json.null)) (← bool (← field req "strict")) (← parseSeed (← field req "seed")))
+  | "sort" => pure (.sort (← (← arr (← field req "keys")).mapM parseVal))
+  | "where" => pure (.whereOp (← parseRange (← field req "nint")) (← parseRange (← field req "nact")) (← parseRange (← field req "nfet")))
+  | "riffle" => pure (.riffle (← nat (← field req "spacing")) (← parseSeed (← field req "seed")))
+  | "identity" => pure .identity
+  | _ => throw s!"unknown filter op {op}"
+
+def itemAcc : Acc Item := ⟨(·.logged), (·.hasCtx), (·.ctx), (·.nact)⟩
+
+/-- a nested join: a JSON array is a joined pipe, an object one filter -/
+partial def parsePipe (j : Json) : Except String (Pipe Item) := do
+  match j with
+  | .arr xs => pure (.joined (← xs.toList.mapM parsePipe))
+  | o => pure (.one (FOp.run floatOps itemAcc 12 (← parseOp o)))
+
 def handle (req : Json) : Except String Json := do
   let op ← str (← field req "op")
   let items ← (← arr (← field req "items")).mapM parseItem
@@ -391,6 +415,19 @@ def handle (req : Json) : Except String Json := do
     let ns ← nat (← field req "nslice")
     let reads ← (← arr (← field req "reads")).mapM (opt nat)
     pure (obj [("reads", ofList ids (cacheRun ns items none reads))])
+  | "chain" =>
+    -- a pipeline of filters: flat (`pipeline`), every prefix of it (the stages), and as a nested join (`Pipe`)
+    let fops ← (← arr (← field req "ops")).mapM parseOp
+    let tree ← parsePipe (← field req "tree")
+    let stages := (List.range (fops.length + 1)).map (fun k => outIds (pipeline floatOps itemAcc 12 (fops.take k) items))
+    pure (obj [("flat", outIds (pipeline floatOps itemAcc 12 fops items)), ("stages", Json.arr stages.toArray),
+               ("joined", outIds (tree.runFlat items)), ("unit", outIds (tree.run items)),
+               ("nfilters", ofNat tree.filters.length),
+               -- the interpreter of the method bodies (model programs) on the spliced filter list
+               ("ran_filter", match runPipeProgram tree.filters items filtersFilterProgram [("items", .ok items)] with
+                 | some r => outIds r | none => Json.null),
+               ("ran_read", match runPipeProgram tree.filters items sourceReadProgram [] with
+                 | some r => outIds r | none => Json.null)])
   | "identity" => pure (obj [("out", ids (identityF items))])
   | _ => throw s!"unknown op {op}"
 
